@@ -1,5 +1,6 @@
 SPECIFICATION MCSpec
 CONSTANTS
+  AllSchedules = FALSE
   PermuteModules = FALSE
   FieldSets <- TFieldSets
   VftSets <- QVftSets
